@@ -118,6 +118,18 @@ func registerVrt(m *Machine) {
 	m.natives[vrtPkg+"LiveTasks"] = func(m *Machine, args []Value) Value {
 		return m.i64(int64(m.liveTasks()))
 	}
+	m.natives[vrtPkg+"Or"] = func(m *Machine, args []Value) Value {
+		return m.ctx.Or(args[0].(*sym.Term), args[1].(*sym.Term))
+	}
+	m.natives[vrtPkg+"And"] = func(m *Machine, args []Value) Value {
+		return m.ctx.And(args[0].(*sym.Term), args[1].(*sym.Term))
+	}
+	m.natives[vrtPkg+"Implies"] = func(m *Machine, args []Value) Value {
+		return m.ctx.Implies(args[0].(*sym.Term), args[1].(*sym.Term))
+	}
+	m.natives[vrtPkg+"Ite"] = func(m *Machine, args []Value) Value {
+		return m.ctx.Ite(args[0].(*sym.Term), args[1].(*sym.Term), args[2].(*sym.Term))
+	}
 	m.natives[vrtPkg+"Symbolic"] = func(m *Machine, args []Value) Value { return m.ctx.True }
 	m.natives[vrtPkg+"Done"] = func(m *Machine, args []Value) Value { return nil }
 	m.natives[vrtPkg+"Note"] = func(m *Machine, args []Value) Value { return nil }
